@@ -9,8 +9,8 @@ ALL = ["C%02d" % i for i in range(1, 21)]
 checks = []
 for pid in ALL:
     p = props.PROPS.get(pid)
-    if not p:
-        continue
+    if not p or props.META[pid].get("text") == "placeholder":
+        continue   # not (yet) claimed
     m = props.META[pid]
     checks.append({
         "property_id": pid,
@@ -24,7 +24,7 @@ for pid in ALL:
         "technique": m.get("technique", "Lean 4 theorems over an executable model + differential correspondence with the Go code"),
     })
 na = [{"property_id": pid, "reason": props.NOT_YET.get(pid, "not built yet in this session; see DESIGN.md §5 for the planned Lean model and tie")}
-      for pid in ALL if pid not in props.PROPS]
+      for pid in ALL if pid not in props.PROPS or props.META[pid].get("text") == "placeholder"]
 man = {
     "version": 1,
     "setup_cmd": "./setup.sh",
